@@ -21,7 +21,7 @@ META = {
 }
 
 RECS = ["absent", "current", "other"]
-STEPS = ["run", "dry-run", "status", "touch", "clean", "clean-none", "touch-none"]
+STEPS = ["run", "dry-run", "status", "touch", "clean", "clean-none", "touch-none", "run-A", "touch-A", "clean-A"]
 
 
 class Model:
@@ -48,16 +48,16 @@ def _q18(ra, rb, enabled, step, ea, eb, reject):
     """One inductive step: arbitrary record map over {A, B} (+ a record of a removed target), hashing
     on or off, files present or not; one command; the record file afterwards = model."""
     sh = q.SHARD
-    if not (q.in_range(ra, 3) and q.in_range(rb, 3) and q.in_range(step, 7) and q.in_range(reject, 3)):
+    if not (q.in_range(ra, 3) and q.in_range(rb, 3) and q.in_range(step, 10) and q.in_range(reject, 3)):
         return q.SKIP
     if "step" in sh and step != sh["step"]:
         return q.SKIP
     if step != 0 and reject != 0:
         return q.SKIP
     enabled, ea, eb = (True if enabled else False), (True if ea else False), (True if eb else False)
-    ra, rb, st, rj = q.pick([0, 1, 2], ra), q.pick([0, 1, 2], rb), q.pick([0, 1, 2, 3, 4, 5, 6], step), q.pick([0, 1, 2], reject)
+    ra, rb, st, rj = q.pick([0, 1, 2], ra), q.pick([0, 1, 2], rb), q.pick(list(range(10)), step), q.pick([0, 1, 2], reject)
     with q.notrace():
-        pr = Project("chain2", "slurm")
+        pr = Project("chain2", sh.get("be", "slurm"))
         pr.add_sources(5)
         w = pr.w
         if ea:
@@ -83,7 +83,7 @@ def _q18(ra, rb, enabled, step, ea, eb, reject):
             pr.add_tracked("B", "102", "pending")
             pr.write_tracked()
         if rj:
-            w.sim.fault_only = ("sbatch",)
+            w.sim.fault_only = ({"slurm": "sbatch", "sge": "qsub", "lsf": "bsub"}[sh.get("be", "slurm")],)
             w.sim.fault_at = rj
             w.sim.fault_kind = 0
         w.install()
@@ -122,6 +122,27 @@ def _q18(ra, rb, enabled, step, ea, eb, reject):
             if enabled:
                 for nm in pr.names:
                     m.rec.pop(nm, None)
+        elif step_name == "run-A":
+            # a run restricted to A: B is outside the cone, its record must survive
+            try:
+                w.run(("A",))
+            except Exception:
+                pass
+            accepted = [j["name"] for j in abst.jobs_by_cmd(w)[n0:]]
+            want_a = ["A"] if (not live and stale[0]) else []
+            if accepted != want_a:
+                return "hashing %s, records A:%s B:%s, files a:%s b:%s: run A submitted %s, expected %s" % (enabled, RECS[ra], RECS[rb], ea, eb, accepted, want_a)
+            if enabled:
+                for nm in accepted:
+                    m.rec[nm] = m.h(nm)
+        elif step_name == "touch-A":
+            w.touch(("A",))
+            if enabled:
+                m.rec["A"] = m.h("A")
+        elif step_name == "clean-A":
+            w.clean(("A",), True, True)
+            if enabled:
+                m.rec.pop("A", None)
         elif step_name == "clean-none":
             w.clean(("Zzz*",), True, True)          # a selection that matches no target
         elif step_name == "touch-none":
@@ -260,10 +281,10 @@ def q18h(s0: int, s1: int, s2: int, s3: int, start_enabled: bool) -> str:
 
 
 QUERIES = [
-    {"name": "Q18", "fn": q18, "shards": [{"step": k} for k in range(7)] + [{"step": k, "live": 1} for k in (0, 1, 2, 4)], "timeout": {"quick": 1500, "thorough": 3000},
+    {"name": "Q18", "fn": q18, "shards": [{"step": k} for k in range(10)] + [{"step": k, "live": 1} for k in (0, 1, 2, 4)] + [{"step": 0, "be": b} for b in ("sge", "lsf")], "timeout": {"quick": 1500, "thorough": 3000},
      "bound": "one step from an arbitrary state: record of A and of B each absent / current / outdated (+ a record of a removed target, or no hash file at all), hashing on/off, outputs present or not; "
-              "step in {run (with the 1st or 2nd sbatch rejected, or none), run --dry-run, status, touch, clean --all -f, clean / touch with a pattern matching nothing}; "
-              "extra shards: both targets still have a queued job from an earlier invocation (no target is asked for its hash); chain of 2 on Slurm"},
+              "step in {run (with the 1st or 2nd sbatch rejected, or none), run --dry-run, status, touch, clean --all -f, clean / touch with a pattern matching nothing, run / touch / clean --all restricted to the first target}; "
+              "extra shards: both targets still have a queued job from an earlier invocation (no target is asked for its hash); chain of 2 on Slurm (the run step also on SGE and LSF)"},
     {"name": "Q18h", "fn": q18h,
      "shards": {"quick": [{"len": 2, "s0": k} for k in range(len(HSTEPS))], "thorough": [{"len": 3, "s0": k} for k in range(len(HSTEPS))] + [{"len": 4, "s0": a, "s1": b} for a in (0, 3, 5, 7, 8) for b in range(len(HSTEPS))]},
      "timeout": {"quick": 1500, "thorough": 3600},
